@@ -255,6 +255,11 @@ class Cache:
         ):
             return "window function in `filter`"
 
+        if isinstance(node, verbs.Filter) and any(
+            self.cols[uid].ftype() == Ftype.WINDOW for uid in self.uuid_to_name.keys()
+        ):
+            return "filter on a table containing window function expression"
+
         if isinstance(node, verbs.Summarize):
             if (self.group_by and self.group_by != set(self.partition_by)) or (
                 self.is_summarized and not self.group_by
